@@ -7,7 +7,7 @@ scanner) and cross-checked against the text (the scalar's spelling must start at
 import json, re
 import yaml
 
-PLAIN_OK = re.compile(r"^[A-Za-z_][A-Za-z0-9_\-]*$")
+PLAIN_OK = re.compile(r"\A[A-Za-z_][A-Za-z0-9_\-]*\Z")
 RESERVED = {"true", "false", "null", "yes", "no", "on", "off", "y", "n", "~"}
 
 
@@ -91,7 +91,12 @@ def emit_block(rng, v):
     out = []
     step0 = rng.choice([1, 2, 2, 3, 4])
 
+    after_block = [False]
+
     def noise(ind):
+        if after_block[0]:
+            after_block[0] = False      # a comment indented like the text of a block scalar would be part of it
+            return
         r = rng.random()
         if r < 0.08:
             out.append(" " * rng.choice([0, ind, ind + 3]) + "# " + rng.choice(["comment", "a: b", "- x", "é"]))
@@ -115,6 +120,14 @@ def emit_block(rng, v):
                     go(x, ind + rng.choice([0, step]))
                 elif isinstance(x, (dict, list)):
                     out.append(" " * ind + kt + ":" + " " * rng.choice([1, 2]) + ("{}" if isinstance(x, dict) else "[]") + tail())
+                elif (isinstance(x, str) and "\n" in x and x.strip("\n") and not x.startswith("\n")
+                      and all(l and not l[0].isspace() and all(ord(c) >= 32 for c in l) for l in x.rstrip("\n").split("\n"))
+                      and not x.endswith("\n\n") and rng.random() < 0.8):
+                    # a multi-line string as a literal block scalar (`|` keeps the final line break, `|-` has none)
+                    out.append(" " * ind + kt + ":" + " " * rng.choice([1, 2]) + ("|" if x.endswith("\n") else "|-") + tail().replace("why", "c"))
+                    for l in x.rstrip("\n").split("\n"):
+                        out.append(" " * (ind + step) + l)
+                    after_block[0] = True
                 else:
                     out.append(" " * ind + kt + ":" + " " * rng.choice([1, 1, 2, 4]) + scalar_text(rng, x, "yaml") + tail())
         else:
@@ -205,7 +218,7 @@ def self_check(rng, doc, style):
             continue
         v = resolve(doc, ptr)
         rest = lines[l][c:]
-        ok = rest.startswith(('"', "'")) if isinstance(v, str) and not rest.startswith(v[:1] or '"') else True
+        ok = rest.startswith(('"', "'", "|", ">")) if isinstance(v, str) and not rest.startswith(v[:1] or '"') else True
         if isinstance(v, bool):
             ok = rest.startswith("true" if v else "false")
         elif v is None:
